@@ -294,6 +294,7 @@ func Main(spec Spec) {
 	out := flag.String("out", "", "worker output file (internal)")
 	replay := flag.String("replay", "", "replay one violation file")
 	isolated := flag.Bool("isolated", false, "run one case from stdin in this process (internal)")
+	isolatedBatch := flag.Bool("isolated-batch", false, "run a JSON array of cases from stdin in this process (internal)")
 	nworkers := flag.Int("workers", 0, "number of worker processes")
 	budget := flag.Duration("budget", 0, "override internal time budget")
 	flag.Parse()
@@ -316,6 +317,10 @@ func Main(spec Spec) {
 
 	if *isolated {
 		doIsolated(spec, *tier, seed)
+		return
+	}
+	if *isolatedBatch {
+		doIsolatedBatch(spec, *tier, seed)
 		return
 	}
 	if *replay != "" {
@@ -417,6 +422,152 @@ func doIsolated(spec Spec, tier string, seed int64) {
 	}
 	enc, _ := json.Marshal(res)
 	out.Write(enc)
+}
+
+func doIsolatedBatch(spec Spec, tier string, seed int64) {
+	var lim syscall.Rlimit
+	lim.Cur, lim.Max = 3<<30, 3<<30
+	syscall.Setrlimit(syscall.RLIMIT_AS, &lim)
+	data, err := io.ReadAll(os.Stdin)
+	if err != nil {
+		os.Exit(3)
+	}
+	var cases []json.RawMessage
+	if err := json.Unmarshal(data, &cases); err != nil {
+		os.Exit(3)
+	}
+	out := os.Stdout
+	devnull, _ := os.OpenFile(os.DevNull, os.O_WRONLY, 0)
+	os.Stdout = devnull
+	ctx := newCtx()
+	ctx.ID, ctx.Tier, ctx.Seed, ctx.NShards, ctx.Replay = spec.ID, tier, seed, 1, true
+	ctx.spec = &spec
+	flush := func() {
+		res := isoOut{Outcomes: ctx.outcomes, Evals: ctx.evals, Distinct: int64(len(ctx.distinct)) + ctx.nontrivN}
+		for _, k := range ctx.vorder {
+			res.Violations = append(res.Violations, ctx.violations[k])
+		}
+		enc, _ := json.Marshal(res)
+		fmt.Fprintf(out, "R %s\n", enc)
+		ctx.outcomes = map[string]int64{}
+		ctx.evals, ctx.nontrivN = 0, 0
+		ctx.distinct = map[uint64]struct{}{}
+		ctx.violations = map[string]*Violation{}
+		ctx.vorder = nil
+	}
+	for i, c := range cases {
+		fmt.Fprintf(out, "S %d\n", i)
+		spec.Replay(ctx, c)
+		flush()
+	}
+	flush()
+	fmt.Fprintf(out, "E\n")
+}
+
+// RunBatchIsolated runs the cases (through the driver's Replay) in child
+// processes with an address-space cap. If a child dies on a case, onDeath is
+// told about that case and the remaining cases continue in a new child.
+func (c *Ctx) RunBatchIsolated(cases []any, perCase time.Duration, onDeath func(cs any, tail string)) {
+	raw := make([]json.RawMessage, len(cases))
+	for i, cs := range cases {
+		d, err := json.Marshal(cs)
+		if err != nil {
+			panic(err)
+		}
+		raw[i] = d
+	}
+	start := 0
+	for start < len(cases) {
+		data, _ := json.Marshal(raw[start:])
+		cmd := exec.Command(os.Args[0], "-isolated-batch", "-tier", c.Tier)
+		cmd.Env = append(os.Environ(), fmt.Sprintf("VERIF_SEED=%d", c.Seed), "GOMAXPROCS=2")
+		cmd.Stdin = bytes.NewReader(data)
+		var se bytes.Buffer
+		cmd.Stderr = &se
+		pipe, err := cmd.StdoutPipe()
+		if err != nil {
+			panic(err)
+		}
+		if err := cmd.Start(); err != nil {
+			panic(err)
+		}
+		lines := make(chan string, 64)
+		go func() {
+			sc := bufio.NewScanner(pipe)
+			sc.Buffer(make([]byte, 1<<20), 64<<20)
+			for sc.Scan() {
+				lines <- sc.Text()
+			}
+			close(lines)
+		}()
+		current := -1
+		finished := false
+		timer := time.NewTimer(perCase)
+	loop:
+		for {
+			select {
+			case l, ok := <-lines:
+				if !ok {
+					break loop
+				}
+				switch {
+				case strings.HasPrefix(l, "S "):
+					fmt.Sscanf(l, "S %d", &current)
+					if !timer.Stop() {
+						select {
+						case <-timer.C:
+						default:
+						}
+					}
+					timer.Reset(perCase)
+				case strings.HasPrefix(l, "R "):
+					var res isoOut
+					if json.Unmarshal([]byte(l[2:]), &res) == nil {
+						c.mergeIso(&res)
+					}
+				case l == "E":
+					finished = true
+				}
+			case <-timer.C:
+				cmd.Process.Kill()
+			}
+		}
+		cmd.Wait()
+		timer.Stop()
+		if finished {
+			return
+		}
+		if current < 0 {
+			panic("isolated batch child died before its first case: " + se.String())
+		}
+		t := se.String()
+		if i := strings.Index(t, "\ngoroutine "); i > 0 {
+			t = t[:i]
+		}
+		if len(t) > 400 {
+			t = t[:400]
+		}
+		onDeath(cases[start+current], strings.TrimSpace(t))
+		start += current + 1
+	}
+}
+
+func (c *Ctx) mergeIso(res *isoOut) {
+	c.mu.Lock()
+	defer c.mu.Unlock()
+	c.evals += res.Evals
+	c.nontrivN += res.Distinct
+	for k, v := range res.Outcomes {
+		c.outcomes[k] += v
+	}
+	for _, v := range res.Violations {
+		if old, ok := c.violations[v.Key]; ok {
+			old.N += v.N
+		} else {
+			c.violations[v.Key] = v
+			c.vorder = append(c.vorder, v.Key)
+		}
+	}
 }
 
 // RunIsolated runs one case (through the driver's Replay function) in a
